@@ -269,7 +269,7 @@ func item(c cfg, oracle string) *explore.Item {
 			msg int
 		}
 		var unsubs []unsubAt
-		sanitised := map[string]bool{"Internal server error": true, "visible to the client": true, "wrapped visible message": true, "could not load devices": true,
+		sanitised := map[string]bool{"Internal server error": true, "visible to the client": true, "wrapped visible message": true, "could not load devices": true, "lookup failed": true,
 			"duplicate subscription": true, "too many subscriptions": true, "unknown message type": true}
 		errCount := map[string]int{}
 		failures := map[string]int{}
@@ -426,7 +426,9 @@ func item(c cfg, oracle string) *explore.Item {
 
 		// ---------- lifecycle: close the connection and drain ----------
 		if oracle != "lifecycle" {
-			w.in.Close()
+			if !closedByScript {
+				w.in.Close()
+			}
 			cancel()
 			return
 		}
@@ -550,6 +552,10 @@ func c02configs(tier string) []cfg {
 func c17configs(tier string) []cfg {
 	out := []cfg{
 		{Client: []string{"S:a:flag"}},
+		// the socket closes while a run that observes its cancellation is in flight
+		{Client: []string{"S:a:slow", "C"}, Env: []string{"flag++"}, Deep: 3},
+		{Client: []string{"S:a:slow", "S:b:flag", "C"}, Env: []string{"flag++"}},
+		{Client: []string{"S:a:flag", "C"}, Env: []string{"flag++", "flag++"}, Mw: 1},
 		// (subscribe immediately followed by its end: explored one deviation deeper in both tiers)
 		{Client: []string{"S:a:flag", "C"}, Env: []string{"flag++"}, Deep: 3},
 		{Client: []string{"S:a:flag", "U:a"}, Env: []string{"flag++"}, Deep: 3},
@@ -598,7 +604,7 @@ func c17configs(tier string) []cfg {
 
 func c16configs(tier string) []cfg {
 	var out []cfg
-	for _, mode := range []string{"error", "safe", "wrapped", "panic", "wrapcancel", "safecancel"} {
+	for _, mode := range []string{"error", "safe", "wrapped", "panic", "wrapcancel", "safecancel", "custom"} {
 		pre := []string{"boom-" + mode}
 		out = append(out, cfg{Client: []string{"S:a:boom"}, Pre: pre})
 		out = append(out, cfg{Client: []string{"S:a:boom", "S:b:flag"}, Pre: pre, Env: []string{"flag++"}})
@@ -615,6 +621,11 @@ func c15configs(tier string) []cfg {
 		{Client: []string{"S:a:boom", "S:b:flag"}, Env: []string{"boom-panic", "boom-off"}},
 		{Client: []string{"S:a:boom", "M:m:4", "S:b:flag"}, Pre: []string{"boom-panic"}},
 		{Client: []string{"S:a:boom", "E", "S:b:maybe"}, Pre: []string{"boom-panic"}, Env: []string{"maybe-toggle"}},
+		// a subscription cancelled while its resolver is executing (the resolver reports the cancellation): the request
+		// ends, the connection keeps serving
+		{Client: []string{"S:a:slow", "U:a", "E", "S:b:flag"}, Env: []string{"flag++"}, Deep: 3},
+		{Client: []string{"S:a:slow", "S:b:flag", "C"}, Env: []string{"flag++"}},
+		{Client: []string{"S:a:slow", "S:b:flag"}, Env: []string{"flag++"}, Cancel: true},
 		// a panicking mutation that is unsubscribed while running, its id re-used by a live query straight away
 		{Client: []string{"MP:a", "U:a", "S:a:flag"}, Env: []string{"flag++"}, Deep: 3},
 		{Client: []string{"MP:a", "S:b:flag", "U:a"}, Env: []string{"flag++"}},
@@ -636,7 +647,7 @@ func register(prop, name, oracle string, bounds [2]int, cfgs func(string) []cfg,
 }
 
 func init() {
-	for _, c := range []string{"boom-safe", "boom-wrapped", "boom-error-once", "boom-wrapcancel", "boom-safecancel"} {
+	for _, c := range []string{"boom-safe", "boom-wrapped", "boom-error-once", "boom-wrapcancel", "boom-safecancel", "boom-custom"} {
 		mode := strings.TrimPrefix(c, "boom-")
 		changes = append(changes, struct {
 			name string
